@@ -53,6 +53,7 @@ def run_line_job(job, seed):
     n_e2 = job.get('e2', 3)
     trace = bool(job.get('trace'))
     e2_viol = []
+    pending = None
     for dg, path in list(res.terminals.items())[:n_e2]:
         try:
             d2 = run_e2(spec, lambda: make_monitors(mons), path, trace=trace)
@@ -63,14 +64,16 @@ def run_line_job(job, seed):
             if len(e2_viol) >= 3:
                 break
             continue
-        except HarnessError:
+        except HarnessError as he:
             sd = split_differential(spec, mons, path, trace)
             if isinstance(sd, tuple):
                 e2_viol.append({'clause': sd[0], 'detail': sd[1], 'path': [list(x) for x in path], 'scenario': spec['name']})
                 if len(e2_viol) >= 3:
                     break
                 continue
-            raise
+            # no real-vs-real twin for THIS path: the error stands unless another path of the job yields a verdict
+            pending = pending or he
+            continue
         except Exception as e:
             if not trace:
                 raise
@@ -85,11 +88,14 @@ def run_line_job(job, seed):
             if isinstance(sd, tuple):
                 e2_viol.append({'clause': sd[0], 'detail': sd[1], 'path': [list(x) for x in path], 'scenario': spec['name']})
                 continue
-            raise HarnessError(f'{spec["name"]}: E1/E2 divergence: fork-derived final state {dg} but the real '
-                               f'simulate() reached {d2} on the same choice list')
+            pending = pending or HarnessError(f'{spec["name"]}: E1/E2 divergence: fork-derived final state {dg} but the real '
+                                              f'simulate() reached {d2} on the same choice list')
+            continue
         validated += 1
         if sample is None:
             sample = [list(x) for x in path]
+    if pending is not None and not e2_viol and not res.violations:
+        raise pending
     # every explored split point: the path up to 'resume' is completed linearly (first tie choice, no further
     # operation) and the whole path is replayed through real consecutive simulate() calls
     nw = nd = 0
@@ -151,8 +157,9 @@ def unsplit_path(path):
         if lab[0] != 'split':
             if lab[0] == 'ev':
                 displaced = False
-            elif displaced:
-                return None      # an operation positioned relative to a clock the twin does not have
+            elif displaced and lab[0] == 'op' and lab[2] in ('end', 'mid'):
+                return None      # an operation positioned relative to a clock the twin does not have ('pre' and 'hi' go by
+                                 # the time of the next event, which both have)
             out.append(lab)
             i += 1
             continue
